@@ -13,6 +13,9 @@
 (***************************************************************************)
 EXTENDS Raft
 
+CONSTANT TrackEvidence   \* TRUE: keep delivered votes/acks/confirmations (trace validation);
+                         \* FALSE in exhaustive runs, where they would only multiply states
+
 VARIABLES node,   \* [Replica -> replica record]
           net,    \* set of messages in flight
           h       \* history record
@@ -59,7 +62,8 @@ HStep(hh, pre, post, m, ev) ==
                                                [e |-> LogEntryOrUnknown(post, CMax(h2) + i), ct |-> post.term]]]
               ELSE h2
       \* delivered evidence
-      h4 == CASE m.mtype = "ReplicateResp" /\ ~m.reject -> [h3 EXCEPT !.acks = @ \cup {<<n, m.term, m.from, m.lidx>>}]
+      h4 == CASE ~TrackEvidence -> h3
+              [] m.mtype = "ReplicateResp" /\ ~m.reject -> [h3 EXCEPT !.acks = @ \cup {<<n, m.term, m.from, m.lidx>>}]
               [] m.mtype = "RequestVoteResp" /\ ~m.reject -> [h3 EXCEPT !.grants = @ \cup {<<n, m.term, m.from>>}]
               [] m.mtype = "HeartbeatResp" /\ m.hint # 0 -> [h3 EXCEPT !.ricf = @ \cup {<<n, m.term, m.hint, m.from>>}]
               [] OTHER -> h3
@@ -87,13 +91,13 @@ HStep(hh, pre, post, m, ev) ==
       \* C18/C03: an election is won with granted votes (delivered RequestVoteResp) of a
       \* majority of voters + witnesses
       gs == {x[3] : x \in {y \in h9.grants : y[1] = n /\ y[2] = post.term}} \cup {n}
-      h10 == IF becameLeader /\ pre.up /\ Cardinality(gs \cap VotingIds(pre)) < Quorum(pre)
+      h10 == IF TrackEvidence /\ becameLeader /\ pre.up /\ Cardinality(gs \cap VotingIds(pre)) < Quorum(pre)
                THEN [h9 EXCEPT !.bad = @ \cup {"ElectionQuorum"}] ELSE h9
       \* C18: a leader advances its commit index only to what a majority of voters +
       \* witnesses acknowledged in its term (delivered ReplicateResp), itself included
       advanced == pre.up /\ post.up /\ pre.role = "L" /\ post.role = "L" /\ pre.term = post.term /\ post.com > pre.com
       acked == {x[3] : x \in {y \in h10.acks : y[1] = n /\ y[2] = post.term /\ y[4] >= post.com}} \cup {n}
-      h11 == IF advanced /\ Cardinality(acked \cap VotingIds(post)) < Quorum(post)
+      h11 == IF TrackEvidence /\ advanced /\ Cardinality(acked \cap VotingIds(post)) < Quorum(post)
                THEN [h10 EXCEPT !.bad = @ \cup {"CommitQuorum"}] ELSE h10
       \* C06: a leader accepts a read request only with a committed entry of its term
       accepted == pre.up /\ post.up /\ post.role = "L" /\ Len(post.riq) > 0 /\
@@ -106,7 +110,7 @@ HStep(hh, pre, post, m, ev) ==
       newResp == {x \in post.msgs : x.mtype = "ReadIndexResp"} \ (IF pre.up THEN pre.msgs ELSE {})
       released == pre.up /\ pre.role = "L" /\ ~SingleQuorum(pre) /\ (newRtr # {} \/ newResp # {})
       cf == {x[4] : x \in {y \in h12.ricf : y[1] = n /\ y[2] = pre.term /\ y[3] = m.hint}}
-      h13 == IF released /\ ~(m.mtype = "HeartbeatResp" /\ m.hint # 0 /\
+      h13 == IF TrackEvidence /\ released /\ ~(m.mtype = "HeartbeatResp" /\ m.hint # 0 /\
                                Cardinality((cf \cap VotingIds(pre)) \cup {n}) >= Quorum(pre))
                THEN [h12 EXCEPT !.bad = @ \cup {"ReadIndexNoQuorum"}] ELSE h12
       \* C07: a replica only changes kind by promotion non-voting -> voting
